@@ -143,6 +143,27 @@ def build(tier, seed):
                 f"    let ns: [&[u8]; {k}] = [{sl}];\n    let s: GenericArray<&[u8], U{k}> = arr![{sl}];\n    let bs: Box<GenericArray<&[u8], U{k}>> = box_arr![{sl}];\n"
                 f"    if s.as_slice() != &ns[..] || bs.as_slice() != &ns[..] {{ fail(@ID@, \"coerced slice elements\"); }}")
         add("list_coerced", {"count": k}, "", body)
+    # element expressions that carry attributes (legal on the elements of an array literal): kept elements in both macros, and an
+    # element removed by `#[cfg(any())]` in arr! - the array the syntax denotes is the native literal's, one element shorter
+    for k in [1, 2, 4]:
+        vals = [rng.randrange(1 << 31) for _ in range(k + 1)]
+        kept = ", ".join((["#[cfg(all())] ", "#[allow(unused_parens)] ", ""][i % 3]) + f"(lg({i}, {v}))" for i, v in enumerate(vals[:k]))
+        body = (f"    let native: [u32; {k}] = [{kept}];\n    let _ = take();\n    let a: GenericArray<u32, U{k}> = arr![{kept}];\n    let log = take();\n"
+                f"    if log != ordered({k}) || a.as_slice() != &native[..] {{ fail(@ID@, \"arr! with attributes on kept elements\"); }}\n"
+                f"    let b: Box<GenericArray<u32, U{k}>> = box_arr![{kept}];\n    let log = take();\n"
+                f"    if log != ordered({k}) || *b != a {{ fail(@ID@, \"box_arr! with attributes on kept elements\"); }}")
+        add("list_attributes_kept", {"count": k}, "", body)
+        removed = ", ".join(("#[cfg(any())] " if i == k // 2 else "") + f"lg({i}, {v})" for i, v in enumerate(vals))
+        want_log = [i for i in range(k + 1) if i != k // 2]
+        body = (f"    let native: [u32; {k}] = [{removed}];\n    let _ = take();\n    let a: GenericArray<u32, U{k}> = arr![{removed}];\n    let log = take();\n"
+                f"    if log != vec!{want_log} || a.as_slice() != &native[..] {{ fail(@ID@, \"arr! with an element removed by cfg differs from the native literal\"); }}")
+        add("list_cfg_removed_element_arr", {"count": k + 1}, "", body)
+        # KNOWN FINDING (known_findings.json, signature solo_box_arr_cfg_removed_element): box_arr! counts the element tokens but
+        # builds its vec! from the cfg-filtered list. Compiled as a program of its own so that nothing else is lost with it.
+        body = (f"    let native: [u32; {k}] = [{removed}];\n"
+                f"    let b: Box<GenericArray<u32, U{k}>> = box_arr![{removed}];\n"
+                f"    if b.as_slice() != &native[..] {{ fail(@ID@, \"box_arr! with an element removed by cfg differs from the native literal\"); }}")
+        add("solo_box_arr_cfg_removed_element", {"count": k + 1}, "", body)
     # macro hygiene: element expressions that mention the caller's own items. macro_rules! hygiene does not cover items, so a
     # helper item inside the expansion with the same name would capture them
     cnames = ["LEN", "N", "LENGTH", "INPUT_LENGTH", "SIZE", "COUNT", "CAP", "USIZE", "ARR", "VEC", "ARRAY", "LEN_", "INPUT", "OUT", "VALUE", "INIT", "ITEM", "ELEM"] + [chr(c) for c in range(ord("A"), ord("Z") + 1) if chr(c) != "N"]
@@ -216,8 +237,12 @@ def run(root, pid, tier, seed):
     t0 = time.time()
     wd = E.workdir(root, pid)
     items = build(tier, seed)
-    nchunks = 16
-    chunks = [items[i::nchunks] for i in range(nchunks)]
+    # items of a `solo_` kind (directed cases of listed known findings) are compiled one per program: an item that does not
+    # compile takes its whole program with it
+    solo = [it for it in items if it[1].startswith("solo_")]
+    rest = [it for it in items if not it[1].startswith("solo_")]
+    chunks = [rest[i::16] for i in range(16)] + [[it] for it in solo]
+    nchunks = len(chunks)
     by_id = {it[0]: it for it in items}
     failures = []
     # dev profile (debug assertions on) and release profile (off): the macros expand to calls of library functions
@@ -281,7 +306,7 @@ def run(root, pid, tier, seed):
     samples = [{"kind": it[1], "params": it[2], "body": it[4][:300]} for it in (items[2], items[40], items[-6], items[-1])]
     return E.evidence(
         pid, tier, seed, "exploration", 2 * len(items), len(nontrivial),
-        "generated invocations: list form with every element count 0..=64 plus 100, 128, 255, 256 (with and without trailing comma, including arr![] and arr![, ]) whose element expressions log their evaluation; non-Copy (String) list form; const-position list form; both repeat forms arr![x; U<n>] and arr![x; n] over 20 lengths up to 1024 in const and let position, with pure, logging and impure x; box_arr! with the same arguments; list forms whose elements move non-Copy locals; repeat forms whose length is a type-level expression (Add1, Sum, Prod) in const and let position; box_arr! repeat with a Clone-only element; list forms whose element expressions leave temporaries with observable destructors behind (values and the complete evaluation/drop log must be those of the native literal); list forms whose elements need the expected type (Box<dyn Fn>, &[u8]) to flow into the expressions; repeat lengths that name a const parameter or an associated constant of the enclosing item; element expressions that mention items of the caller under ~60 plausible names (LEN, N, T, len(), transmute() ...; macro_rules! hygiene does not cover items) in all forms and positions. Every program is compiled against the crate built in the dev and in the release profile. "
+        "generated invocations: list form with every element count 0..=64 plus 100, 128, 255, 256 (with and without trailing comma, including arr![] and arr![, ]) whose element expressions log their evaluation; non-Copy (String) list form; const-position list form; both repeat forms arr![x; U<n>] and arr![x; n] over 20 lengths up to 1024 in const and let position, with pure, logging and impure x; box_arr! with the same arguments; list forms whose elements move non-Copy locals; repeat forms whose length is a type-level expression (Add1, Sum, Prod) in const and let position; box_arr! repeat with a Clone-only element; list forms whose element expressions leave temporaries with observable destructors behind (values and the complete evaluation/drop log must be those of the native literal); list forms whose elements need the expected type (Box<dyn Fn>, &[u8]) to flow into the expressions; list forms whose elements carry attributes (kept elements in both macros; an element removed by #[cfg(any())]: arr! must equal the shorter native literal, box_arr! is the directed case of a listed known finding); repeat lengths that name a const parameter or an associated constant of the enclosing item; element expressions that mention items of the caller under ~60 plausible names (LEN, N, T, len(), transmute() ...; macro_rules! hygiene does not cover items) in all forms and positions. Every program is compiled against the crate built in the dev and in the release profile. "
         "Oracle: the result coerces to an explicitly written GenericArray<_, U{k}> (so the inferred length is right) and N::USIZE = k, equals the native array literal with the same expressions, the evaluation log is exactly 0..k once each left to right; repeat forms equal [x; n] and evaluate x as [x; n] / vec![x; n] do; *box_arr![..] == arr![..]. "
         "non-trivial = invocations with at least two elements; distinct = distinct (kind, parameters)",
         samples, classes, exhaustive=False, assumptions=["a bare named const as repeat length is parsed as a type by the macro and is outside the documented forms"],
